@@ -491,3 +491,32 @@ def truth_check(f, classify, required, max_atoms=14):
         if got != want:
             return False, {"atoms": {k: env[k] for k in keys}, "formula": got, "required": want}, keys
     return True, None, keys
+
+
+def depends_on(pred, names):
+    """the subset of `names` the boolean function pred(dict) really depends on."""
+    names = list(names)
+    dep = set()
+    for vals in itertools.product([False, True], repeat=len(names)):
+        env = dict(zip(names, vals))
+        base = bool(pred(env))
+        for n in names:
+            if n in dep:
+                continue
+            e2 = dict(env)
+            e2[n] = not e2[n]
+            if bool(pred(e2)) != base:
+                dep.add(n)
+    return dep
+
+
+def missing_atoms(f, classify, pred, names):
+    """names the required function depends on but that no atom of the formula is classified as: a test that was dropped
+    altogether (the truth table over the remaining atoms can still look right when absent atoms default to false)."""
+    ats = atoms_of(f)
+    have = set()
+    for k, t in ats.items():
+        c = classify(k, t)
+        if c:
+            have.add(c.lstrip("!"))
+    return sorted(depends_on(pred, names) - have)
